@@ -570,12 +570,62 @@ def gen_alias(rng):
     return dict(cls=cls, specs=specs, decode_order=decode_order)
 
 
+def gen_argalias(rng):
+    """one instance built from caller-owned mutable arguments, which the caller
+    then updates in place and re-uses for a second instance"""
+    cls = rng.choice(
+        ["Config", "Config", "Config", "Observable", "StateRepr", "OperatorRepr", "Layout", "DetuningMap",
+         "Register", "NoiseModel", "Device", "Channel"]
+    )
+    d = dict(cls=cls, use_numpy=rng.random() < 0.6, mut_seed=rng.randrange(1 << 30))
+    if cls == "Config":
+        n = rng.randint(2, 4)
+        m = [[0.0] * n for _ in range(n)]
+        for i in range(n):
+            for j in range(i + 1, n):
+                m[i][j] = m[j][i] = rng.choice([1.5, 2.0, 0.125, round(rng.uniform(0.1, 5), 3)])
+        d["spec"] = dict(
+            matrix=m if rng.random() < 0.8 else None,
+            et=gen_eval_times(rng) or [0.5, 1.0],
+            observables=[dict(observable=k, evaluation_times=gen_eval_times(rng), tag_suffix=None)
+                         for k in rng.sample(["bitstrings", "occupation", "energy", "correlation_matrix"], rng.randint(1, 3))],
+            extra=dict(opts=[1, 2.5, {"a": [1, 2]}], table={"k": [0.5]}, dt=rng.choice([1, 5])) if rng.random() < 0.8 else {},
+        )
+    elif cls == "Observable":
+        d["spec"] = dict(kind=rng.choice(["bitstrings", "occupation", "energy"]), et=gen_eval_times(rng) or [0.25, 1.0])
+    elif cls == "StateRepr":
+        d["spec"] = gen_state(rng, n=rng.randint(2, 3))
+    elif cls == "OperatorRepr":
+        sp = gen_operator(rng, n=rng.randint(2, 3))
+        if not any(t for _, t in sp["operations"]):
+            sp["operations"].append([1.0, [[{sp["eigenstates"][0] * 2: 1.0}, [0]]]])
+        d["spec"] = sp
+    elif cls == "Layout":
+        d["spec"] = gen_layout(rng, n=rng.randint(2, 6))
+    elif cls == "DetuningMap":
+        d["spec"] = gen_detmap(rng)
+    elif cls == "Register":
+        n = rng.randint(2, 5)
+        dim = rng.choice([2, 3])
+        d["spec"] = dict(dim=dim, ids=[f"q{i}" for i in range(n)], coords=gen_coords(rng, n, dim, spacing=5.0))
+    elif cls == "NoiseModel":
+        k = rng.randint(1, 2)
+        d["spec"] = dict(rates=[rng.choice([0.1, 0.5, 1.0]) for _ in range(k)], opers=[gen_matrix(rng, 2, complex_p=0.0) for _ in range(k)])
+    elif cls == "Device":
+        d["spec"] = dict(chans=[gen_channel(rng) for _ in range(rng.randint(1, 3))], dmms=[gen_dmm(rng) for _ in range(rng.randint(1, 2))],
+                         layouts=[])
+    else:
+        d["spec"] = dict(dir=rng.choice([[1, 0, 0], [0.0, 1.0, 0.0], [1.0, 1.0, 0.5]]), beams=rng.choice([["RED"], ["BLUE", "RED"]]))
+    return d
+
+
 KINDS = [
-    ("device", 0.30),
-    ("noise", 0.22),
+    ("device", 0.27),
+    ("argalias", 0.08),
+    ("noise", 0.20),
     ("simconfig", 0.06),
-    ("config", 0.12),
-    ("results", 0.08),
+    ("config", 0.11),
+    ("results", 0.06),
     ("register", 0.08),
     ("layout", 0.03),
     ("detmap", 0.03),
@@ -594,6 +644,8 @@ def gen_case(rng: random.Random, tier: str):
             break
     if kind == "device":
         return dict(kind=kind, spec=gen_device(rng), foreign_seed=rng.randrange(1 << 30))
+    if kind == "argalias":
+        return dict(kind=kind, spec=gen_argalias(rng))
     if kind == "noise":
         return dict(kind=kind, args=gen_noise_args(rng))
     if kind == "simconfig":
